@@ -102,7 +102,7 @@ func ruleCopySearchRequest(r *Report, rule string) {
 		}
 		switch f.Name() {
 		case "Size":
-			be, ok := ast.Unparen(v).(*ast.BinaryExpr)
+			be, ok := ast.Unparen(resolveCopies(info, fi.Decl.Body, v)).(*ast.BinaryExpr) // possibly held in a local
 			okv := ok && be.Op == token.ADD && ((isField(info, be.X, "SearchRequest", "Size") && isField(info, be.Y, "SearchRequest", "From")) || (isField(info, be.X, "SearchRequest", "From") && isField(info, be.Y, "SearchRequest", "Size")))
 			r.Ob(rule, "SearchRequest.Size=Size+From", anchor, has && okv, "each member is asked for req.Size+req.From hits (any of them could fill the whole page)")
 		case "From":
